@@ -82,6 +82,12 @@ func main() {
 	}()
 	if err != nil {
 		fmt.Println("INCONCLUSIVE:", err)
+		// a violation already reported is a concrete real-code behaviour with a replay file: it stands even if a later
+		// part of the machinery could not finish
+		if n := len(ctx.Violations()); n > 0 {
+			fmt.Printf("%s: %d violation(s) reported before the machinery stopped\n", id, n)
+			os.Exit(1)
+		}
 		os.Exit(2)
 	}
 	for _, k := range ctx.KnownHit() {
